@@ -31,7 +31,7 @@ using namespace vf;
 enum Kind {
     H_NONE = 0,
     H_ALLOC,        // a slot, b family (0 new, 1 new[], 2 malloc), c size, d line, s file; phase = route (0 direct inline node, 1 direct separate node, 2 global routing)
-    H_FREE,         // a slot, b releasing family (-1+1.. : 0 = same as allocating, 1..3 = family b-1)
+    H_FREE,         // a slot, b releasing family (-1+1.. : 0 = same as allocating, 1..3 = family b-1), c entry point of the delete family (0 plain, 1 (file,int), 2 (file,size_t), 3 sized, 4 nothrow)
     H_REALLOC,      // a slot, c new size
     H_ENABLE, H_DISABLE, H_START, H_STOP, H_MARK,
     H_STAGE_INC, H_STAGE_DEC, H_STAGE_FREE,
@@ -73,6 +73,7 @@ struct SimHeap {
     int residue;                 // -1: natural bump; 0..72: every block lands in that bucket; 100+k: one of k buckets chosen per block
     Rng rng;
     long mallocCalls, reallocCalls, freeCalls, failMallocIn, failReallocIn;
+    bool reallocZeroFrees;      // realloc(p, 0) releases p and answers NULL (glibc) instead of handing out a zero-size block
     size_t userRequest;          // size of the user request in flight (0 = none): a platform request below it is refused
     bool undersized; size_t undersizedGot, undersizedWanted; bool armed; bool limitHit;
     bool dirty; bool active;
@@ -95,7 +96,7 @@ struct SimHeap {
         ASAN_POISON_MEMORY_REGION(arena, prevTop > top ? prevTop : top);
         if (top > prevTop) prevTop = top;
         top = 0; blocks.clear(); residue = residueMode; rng.reseed(seed);
-        mallocCalls = reallocCalls = freeCalls = 0; failMallocIn = failReallocIn = -1; userRequest = 0; undersized = false; armed = false; limitHit = false; dirty = dirtyMem; foreignFrees = 0;
+        mallocCalls = reallocCalls = freeCalls = 0; failMallocIn = failReallocIn = -1; userRequest = 0; undersized = false; armed = false; limitHit = false; dirty = dirtyMem; foreignFrees = 0; reallocZeroFrees = false;
     }
     bool owns(const void* p) const { return (const char*)p >= arena && (const char*)p < arena + cap; }
     Block* find(const void* p) { for (size_t i = blocks.size(); i-- > 0;) if (blocks[i].live && (const char*)p >= blocks[i].base && (const char*)p < blocks[i].base + (blocks[i].size ? blocks[i].size : 1)) return &blocks[i]; return 0; }
@@ -138,6 +139,7 @@ struct SimHeap {
         if (!p) return alloc(n, false);
         Block* b = findBase(p);
         if (!b) { foreignFrees++; return 0; }
+        if (n == 0 && reallocZeroFrees) { armed = false; release(p); fired("platform_realloc_zero_frees"); return 0; }
         size_t old = b->size;
         if (armed) { armed = false; if (n < userRequest) { undersized = true; undersizedGot = n; undersizedWanted = userRequest; return 0; } }
         void* q = alloc(n, false);
@@ -289,6 +291,7 @@ struct Engine : public vf::Engine {
         if (acc || mis) { unsigned x = (unsigned)w.below(10); if (x < 3) residueMode = (int)w.below(73); else if (x < 5) residueMode = 100 + (int)w.range(2, 4); }
         d.p["residue"] = residueMode; d.p["dirty"] = w.chance(3, 4);
         d.p["threadsafe"] = (mis || acc) && w.chance(1, 4);       // the thread-safe wrappers on one thread: same behaviour, other code path
+        d.p["realloc0_frees"] = f.chance(1, 2);        // what the platform does with realloc(p, 0): glibc releases p and answers NULL
         d.p["fault_free"] = f.chance(1, 3);             // fault-free and fault-injecting configurations are separate sub-populations
         bool faultFree = d.pi("fault_free") != 0;
         int nOps = (int)w.small(1, acc ? 400 : (dia ? 200 : 120));
@@ -305,7 +308,7 @@ struct Engine : public vf::Engine {
             unsigned x = (unsigned)w.below(100);
             if (acc) {
                 if (x < 38) { o.kind = H_ALLOC; o.a = (int64_t)w.below((uint64_t)nSlots); o.b = (int64_t)w.below(3); o.c = w.small(0, 200); o.phase = (int)w.below(3); o.s = siteFile((int)w.below(N_SITES)); }
-                else if (x < 62) { o.kind = H_FREE; o.a = (int64_t)w.below((uint64_t)nSlots); }
+                else if (x < 62) { o.kind = H_FREE; o.a = (int64_t)w.below((uint64_t)nSlots); o.c = w.chance(1, 3) ? w.range(1, 4) : 0; }
                 else if (x < 70) { o.kind = H_REALLOC; o.a = (int64_t)w.below((uint64_t)nSlots); o.c = w.chance(1, 5) ? -1 : w.small(0, 200); o.s = siteFile((int)w.below(N_SITES)); }      // c = -1: to the block's current size
                 else if (x < 82) { static const int ks[] = { H_ENABLE, H_DISABLE, H_START, H_STOP, H_MARK, H_STAGE_INC, H_STAGE_DEC }; o.kind = ks[w.below(7)]; }
                 else if (x < 85) o.kind = H_STAGE_FREE;
@@ -320,14 +323,14 @@ struct Engine : public vf::Engine {
                     else { static const uint64_t ns[] = { 2, 3, 4, 8, 16, 256, 65536, 4294967296ULL, 1ULL << 33, 1ULL << 62 }; uint64_t n = ns[w.below(10)]; uint64_t tgt = w.chance(1, 2) ? 0 : (1ULL << 63); uint64_t q = (tgt - 1) / n + (uint64_t)w.range(-2, 3); if (tgt == 0) q = (UINT64_MAX / n) + (uint64_t)w.range(-1, 2); o.b = (int64_t)n; o.c = (int64_t)q; } }
                 else if (x < 55) { o.kind = H_STRDUP; o.a = (int64_t)w.below((uint64_t)nSlots); o.c = w.small(0, 300); o.b = w.chance(1, 2) ? -1 : (int64_t)(w.chance(1, 2) ? (uint64_t)o.c + (uint64_t)w.range(0, 3) - 1 : (uint64_t)w.small(0, 400)); if (o.b < -1) o.b = 0; if (w.chance(1, 8)) o.b = -2 - (int64_t)w.below(4); }      // n = SIZE_MAX, SIZE_MAX-1, ...
                 else if (x < 68) { o.kind = H_REALLOC; o.a = (int64_t)w.below((uint64_t)nSlots); o.c = (int64_t)(w.chance(4, 5) ? (size_t)w.small(0, 3000) : boundarySize(w)); }
-                else if (x < 88) { o.kind = H_FREE; o.a = (int64_t)w.below((uint64_t)nSlots); }
+                else if (x < 88) { o.kind = H_FREE; o.a = (int64_t)w.below((uint64_t)nSlots); o.c = w.chance(1, 3) ? w.range(1, 4) : 0; }
                 else if (x < 92) { o.kind = H_QUERY; o.a = (int64_t)w.below(4); }
                 else if (!faultFree) { o.kind = H_FAULT; o.a = (int64_t)w.below(3); o.b = (int64_t)w.below(3); }
                 else o.kind = H_QUERY;
             } else if (mis) {
                 if (x < 30) { o.kind = H_ALLOC; o.a = (int64_t)w.below((uint64_t)nSlots); o.b = (int64_t)w.below(3); o.c = w.chance(3, 4) ? w.range(0, 64) : w.range(0, 600); o.phase = (int)w.below(3); o.s = siteFile((int)w.below(N_SITES)); }
                 else if (x < 55) { o.kind = H_FLIP; o.a = (int64_t)w.below((uint64_t)nSlots); unsigned rg = (unsigned)w.below(10); o.b = rg < 3 ? 0 : (rg < 8 ? 1 : 2); o.c = (int64_t)w.below(600); o.d = (int64_t)w.below(256); if (w.chance(1, 8)) o.d = "BAS"[o.c % 3]; }
-                else if (x < 78) { o.kind = H_FREE; o.a = (int64_t)w.below((uint64_t)nSlots); o.b = w.chance(2, 3) ? 0 : w.range(1, 3); }
+                else if (x < 78) { o.kind = H_FREE; o.a = (int64_t)w.below((uint64_t)nSlots); o.b = w.chance(2, 3) ? 0 : w.range(1, 3); o.c = w.chance(1, 3) ? w.range(1, 4) : 0; }
                 else if (x < 84) { o.kind = H_BADFREE; o.a = (int64_t)w.below(5); o.b = (int64_t)w.below(3); o.c = (int64_t)w.below(600); o.phase = (int)w.below(3) == 2 ? 2 : 0; }
                 else if (x < 87) { o.kind = H_TYPECHECK; o.a = (int64_t)w.below(2); }
                 else if (x < 88) o.kind = H_STASH;
@@ -337,14 +340,14 @@ struct Engine : public vf::Engine {
             } else if (dia) {
                 if (x < 30) { o.kind = H_BADFREE; o.a = w.range(1, 4); o.b = (int64_t)w.below(3); o.c = (int64_t)w.below(600); o.s = w.chance(2, 3) ? longFile : Str("s.c"); }
                 else if (x < 60) { o.kind = H_ALLOC; o.a = (int64_t)w.below(N_SLOTS); o.b = (int64_t)w.below(3); o.c = w.chance(4, 5) ? w.small(0, 64) : w.range(0, 5000); o.phase = (int)w.below(3); o.s = w.chance(1, 2) ? longFile : Str("a.c"); }
-                else if (x < 66) { o.kind = H_FREE; o.a = (int64_t)w.below(N_SLOTS); }
+                else if (x < 66) { o.kind = H_FREE; o.a = (int64_t)w.below(N_SLOTS); o.c = w.chance(1, 3) ? w.range(1, 4) : 0; }
                 else if (x < 72) { o.kind = H_START; }
                 else if (x < 88) { o.kind = H_REPORT; o.a = (int64_t)w.below(4); }
                 else if (x < 90) { static const int ks[] = { H_ENABLE, H_STOP, H_MARK }; o.kind = ks[w.below(3)]; }
                 else { o.kind = H_SSB; o.a = (int64_t)w.below(5); o.b = o.a == 2 ? (int64_t)w.range(0, 5000) : w.small(0, 700); }
             } else if (oom) {
                 if (x < 45) { o.kind = H_ALLOC; o.a = (int64_t)w.below((uint64_t)nSlots); o.b = (int64_t)w.below(3); o.c = w.small(1, 64); o.phase = 2; int s = (int)w.below(N_SITES); o.s = siteFile(s); o.d = (int64_t)siteLine(s); o.s2 = w.chance(1, 3) ? "nothrow" : ""; }
-                else if (x < 60) { o.kind = H_FREE; o.a = (int64_t)w.below((uint64_t)nSlots); }
+                else if (x < 60) { o.kind = H_FREE; o.a = (int64_t)w.below((uint64_t)nSlots); o.c = w.chance(1, 3) ? w.range(1, 4) : 0; }
                 else if (x < 70 && !faultFree) { o.kind = H_DESIGNATE_N; o.a = w.range(1, 12); }
                 else if (x < 82 && !faultFree) { o.kind = H_DESIGNATE_AT; o.a = w.range(1, 4); o.b = (int64_t)w.below(N_SITES); }
                 else if (x < 86) o.kind = H_CHECK_DONE;
@@ -495,6 +498,7 @@ struct Engine : public vf::Engine {
         Hash h;
         CTX = RunCtx(); CTX.r = &r;
         HEAP.reset(mix64(d.seed, 99), (int)d.pi("residue", -1), d.pi("dirty", 1) != 0);
+        HEAP.reallocZeroFrees = d.pi("realloc0_frees", 0) != 0;
         HEAP.active = true;
         simIO().reset();
         MemoryLeakDetector* oldDet = MemoryLeakWarningPlugin::getGlobalDetector();
@@ -516,8 +520,8 @@ struct Engine : public vf::Engine {
         FailableMemoryAllocator failable("Failable", "falloc", "ffree");
         if (d.pi("threadsafe")) { MemoryLeakWarningPlugin::turnOnThreadSafeNewDeleteOverloads(); fired("threadsafe_overloads_single_thread"); }
 
-        if (d.groups.empty()) { HEAP.active = false; MemoryLeakWarningPlugin::setGlobalDetector(oldDet, oldRep); r.hash = h.h; return; }
-        const Group& H = d.groups[0];
+        static const Group noHistory;
+        const Group& H = d.groups.empty() ? noHistory : d.groups[0];
         bool isAcc = d.profile == "accounting", isDia = d.profile == "diagnostics", isOom = d.profile == "oom", isSnd = d.profile == "soundness", isMis = d.profile == "misuse";
         (void)isAcc; (void)isSnd; (void)isMis;
         for (size_t oi = 0; oi < H.ops.size() && r.viols.empty(); oi++) {      // the history stops at the first violation: later differences would be its consequences
@@ -600,7 +604,10 @@ struct Engine : public vf::Engine {
                 MBlock snapshot = S;
                 if (S.route == 2) {
                     // global wrappers poison first; observe the bytes right before the platform/allocator free by wrapping the free seam: done in SimHeap.release via CTX.watchFree
-                    if (fam == 0) ::operator delete(p); else if (fam == 1) ::operator delete[](p); else cpputest_free_location(p, file, line);
+                    int form = (int)o.c; if (form) fired("delete_entry_point_other_than_plain");
+                    if (fam == 0) { switch (form) { case 1: ::operator delete(p, "f", (int)1); break; case 2: ::operator delete(p, "f", (size_t)1); break; case 3: ::operator delete(p, S.size); break; case 4: ::operator delete(p, std::nothrow); break; default: ::operator delete(p); } }
+                    else if (fam == 1) { switch (form) { case 1: ::operator delete[](p, "f", (int)1); break; case 2: ::operator delete[](p, "f", (size_t)1); break; case 3: ::operator delete[](p, S.size); break; case 4: ::operator delete[](p, std::nothrow); break; default: ::operator delete[](p); } }
+                    else cpputest_free_location(p, file, line);
                 } else det.deallocMemory(fa, p, file, line, S.route == 1);
                 expectReports(W, oi, on, cat);
                 if (S.route == 2 && S.tracked && S.size > 0 && cat == -1 && fa->actualAllocator() == S.allocator->actualAllocator()) { probe("free_seam_observed");
